@@ -5,35 +5,51 @@
 EXTENDS PoolOwnership, TraceIO, Known_PoolConc
 
 VARIABLES l, subj, kf
-vars == <<owner, seen, nodes, l, subj, kf>>
+vars == <<owner, seen, nodes, big, cnt, shared, l, subj, kf>>
 
-TraceInit == PoInit /\ l = 1 /\ subj = [subject |-> "none"] /\ kf = {}
+TraceInit == PoInit /\ shared = {} /\ l = 1 /\ subj = [subject |-> "none"] /\ kf = {}
+
+(* configuration of the run (reset event): capacity in blocks of a fixed-capacity pool, 0 = none *)
+Cap == IF Has(subj, "cap") THEN subj.cap ELSE 0
+(* the largest block size the pool recycles through its free lists (0 = every size): larger blocks  *)
+(* are carved from the arena and never handed out again (skip list / huge list not implemented)    *)
+FastMax == IF Has(subj, "fastmax") THEN subj.fastmax ELSE 0
+Rc(sz) == FastMax = 0 \/ sz <= FastMax
 
 Step(e) ==
-    \/ e.op = "alloc" /\ e.ok  /\ AllocOk(e.t, e.addr)
+    \* every way to obtain one block: allocate / alloc / allocate_with_hint / PooledBuffer::new ... (e.via names it)
+    \/ e.op = "alloc" /\ e.ok  /\ (Has(e, "valid") => e.valid) /\ AllocOk(e.t, e.addr, Rc(e.sz), Cap)
     \/ e.op = "alloc" /\ ~e.ok /\ AllocRefused(e.t)
+    \* bulk twins (allocate_bulk_simd / allocate_bulk_with_prefetch): several blocks from one call
+    \/ e.op = "allocs" /\ e.ok  /\ (Has(e, "valid") => e.valid) /\ Len(e.addrs) = Len(e.szs)
+                        /\ AllocBulkOk(e.t, e.addrs, [i \in 1..Len(e.szs) |-> Rc(e.szs[i])], Cap)
+    \/ e.op = "allocs" /\ ~e.ok /\ AllocRefused(e.t)
+    \* every way to give one back: deallocate / free / deallocate_with_zero / drop of the RAII guard
     \/ e.op = "free_start" /\ FreeStart(e.t, e.addr)
     \/ e.op = "free_done"  /\ FreeDone(e.t, e.ok)
+    \/ e.op = "clear"      /\ ClearDone(e.ok)
+    \/ e.op = "validate"   /\ Validate(e.ok)
     \* a scheduler step: the site the thread reached tells what its last code segment did
     \/ e.op = "step" /\ e.to = "tb.push.alloc" /\ NodeAlloc(e.a)
     \/ e.op = "step" /\ e.to = "tb.pop.freed"  /\ NodeFree(e.a)
     \/ e.op = "step" /\ e.to = "tb.pop.next"   /\ NodeDeref(e.a)
-    \/ e.op = "step" /\ e.to \notin {"tb.push.alloc", "tb.pop.freed", "tb.pop.next"} /\ UNCHANGED <<owner, seen, nodes>>
-    \/ e.op = "drain"    /\ Drain(e.drained, e.recycles)
-    \/ e.op = "counters" /\ Counters(e.allocs, e.deallocs)
-    \/ e.op = "note"     /\ UNCHANGED <<owner, seen, nodes>>
-    \/ e.op \in {"stuck", "steplimit", "panic"} /\ FALSE
+    \/ e.op = "step" /\ e.to \notin {"tb.push.alloc", "tb.pop.freed", "tb.pop.next"} /\ UNCHANGED pvars
+    \/ e.op = "drain"    /\ shared = {} /\ Drain(e.drained, e.recycles, Cap)
+    \/ e.op = "counters" /\ Counters(e.c, Cap)
+    \/ e.op = "note"     /\ UNCHANGED pvars
+    \* the code under test hung, span for ever, panicked or killed the process: no action
+    \/ e.op \in {"stuck", "steplimit", "panic", "crash"} /\ FALSE
 
 TraceNext ==
     /\ l <= Len(Rec)
     /\ l' = l + 1
     /\ LET e == Rec[l] IN
        IF e.op = "reset"
-       THEN owner' = [x \in {} |-> 0] /\ seen' = {} /\ nodes' = {} /\ subj' = e /\ kf' = kf
+       THEN PoResetNext /\ shared' = {} /\ subj' = e /\ kf' = kf
        ELSE /\ subj' = subj
             /\ IF UseKF /\ \E id \in KnownIds : DevApplies(id, e, subj)
                THEN \E id \in KnownIds : KnownDeviation(id, e, subj) /\ kf' = kf \cup {id}
-               ELSE Step(e) /\ kf' = kf
+               ELSE Step(e) /\ shared' = shared /\ kf' = kf
 
 TraceSpec == TraceInit /\ [][TraceNext]_vars
 Done == l = Len(Rec) + 1 => PrintT(<<"KFSET", kf>>)
